@@ -162,6 +162,10 @@ func init() {
 	reg("crypto/subtle.ConstantTimeByteEq", func(ex *Exec, c *CallCtx) (Val, bool) {
 		return sym.Eq(tm(ex, c, 0), tm(ex, c, 1)), true
 	})
+	reg("crypto/subtle.ConstantTimeEq", func(ex *Exec, c *CallCtx) (Val, bool) {
+		// int32 operands: equality of the (already converted) values
+		return sym.Eq(tm(ex, c, 0), tm(ex, c, 1)), true
+	})
 	reg("crypto/subtle.ConstantTimeCompare", func(ex *Exec, c *CallCtx) (Val, bool) {
 		return sym.App(sym.Bool, "bytes_eq", ex.SliceBytes(c.St, c.Args[0]), ex.SliceBytes(c.St, c.Args[1])), true
 	})
